@@ -88,6 +88,31 @@ def s1_stability(ctx, rid, fx, cls, src="self.source", alt=None, alt_reason="", 
     return n
 
 
+def s1_held_comb(ctx, rid, fx, cls, src="self.source", sink="self.sink"):
+    """Where source.valid is a register (the token is held until ready), a source data field that is driven combinationally must
+    not be a function of the sink side: the sink may change (or go idle) while the held token waits, and the field would change
+    under valid & ~ready / be delivered with the next token's value."""
+    base_inl = q.Inliner(fx)
+    V0 = base_inl.formula_of_path(src + ".valid")
+    held = V0 is not None and V0[0] == "a" and bool(fx.find(domain="sync", target=V0[1]))
+    n = 0
+    if not held:
+        return n
+    for a in fx.find(domain="comb"):
+        if a.kind not in ("eq", "connect") or not under(a.t, src) or field_of(a.t, src) in ("valid", "ready"):
+            continue
+        sup = q.comb_closure(fx, a.value, context=a)
+        for c, _ in a.guards:
+            sup |= q.comb_closure(fx, c, context=a)
+        leak = sorted(p for p in sup if p == sink or (under(p, sink) and field_of(p, sink) != "ready"))
+        n += 1
+        ctx.ob(rid, fx.rel, cls, f"held token: comb {a.t} does not follow the sink", not leak,
+               "" if not leak else f"`{a.t} <= {short(a.v, 50)}` is a combinational function of {leak[:3]} while `{src}.valid` is the register "
+                                   f"`{V0[1]}`: the field changes while the token is held (valid & ~ready), or is delivered with the value of "
+                                   f"a later sink token", a.line)
+    return n
+
+
 def _valid_consulted(fx, reg):
     """The copy `reg` of a whole endpoint record is only ever used together with its own valid: `reg` is connected as a record
     (connect copies valid) or `reg.valid` is read somewhere in the class."""
